@@ -28,8 +28,15 @@ def sh(cmd, cwd=None, env=None, timeout=1800):
 
 
 def tests(tree):
-    rc, out = sh(f'{PY} -m pytest -q -p no:cacheprovider --timeout=900 -x --deselect bycycle/tests/utils/test_download.py '
-                 f'--deselect bycycle/tests/test_persistence.py 2>&1 | tail -3', cwd=tree)
+    out = ''
+    for attempt in range(4):        # a forked multiprocessing pool occasionally deadlocks under load: bounded and retried
+        try:
+            rc, out = sh(f'timeout -k 5 240 {PY} -m pytest -q -p no:cacheprovider --timeout=200 -x --deselect bycycle/tests/utils/test_download.py '
+                         f'--deselect bycycle/tests/test_persistence.py 2>&1 | tail -3', cwd=tree, timeout=300)
+            if 'passed' in out:
+                break
+        except subprocess.TimeoutExpired:
+            continue
     m = re.search(r'(\d+) passed', out)
     f = re.search(r'(\d+) failed', out)
     return int(m.group(1)) if m else 0, int(f.group(1)) if f else 0
